@@ -116,7 +116,10 @@ class StmtMixin:
             st.alias.pop(t.id, None)
             decl = self.contract_stack[-1].locals if self.contract_stack else {}
             if t.id in decl and not isinstance(v, VFunc):
-                v = coerce(v, T.parse_type(decl[t.id]))
+                try:
+                    v = coerce(v, T.parse_type(decl[t.id]))
+                except Unsupported:
+                    pass  # the name is re-bound to a value of another type (Python allows it); keep the value's own type
             st.vars[t.id] = v
             return
         self.bind_target(t, v, st)
@@ -190,6 +193,7 @@ class StmtMixin:
             if isinstance(base, VList):
                 idx = self.num(key, target, st)
                 i = self.norm_index(base, idx, target, st)
+                v = self.unopt_deep(v, base.ety, target, st)
                 nb = VList(base.ety, base.n, z3.Store(base.a, i, pack(coerce(v, base.ety))))
             elif isinstance(base, VDict):
                 if getattr(base, "empty_literal", False):
